@@ -93,6 +93,11 @@ def load_known():
         return json.load(f)
 
 
+def all_known():
+    """Keys of every recorded known finding (all properties)."""
+    return [e["key"] for e in load_known().get("findings", [])]
+
+
 def known_for(prop):
     k = load_known()
     return {e["key"]: e for e in k.get("findings", []) if e["property"] == prop}
